@@ -126,3 +126,116 @@ pub fn load_and_run(text: &str, src: &Src) -> J {
 pub fn panic_msg(p: Box<dyn std::any::Any + Send>) -> String {
     p.downcast_ref::<&str>().map(|s| s.to_string()).or_else(|| p.downcast_ref::<String>().cloned()).unwrap_or_default()
 }
+
+/// canonical, numbering-preserving text of one execution result (graph through the public API, attribute
+/// maps sorted; pretty form; error text)
+fn run_once(file: &tree_sitter_graph::ast::File, src: &Src, lazy: bool, globals: &tree_sitter_graph::Variables) -> String {
+    use tree_sitter_graph::{ExecutionConfig, NoCancellation};
+    let functions = Functions::stdlib();
+    let config = ExecutionConfig::new(&functions, globals).lazy(lazy);
+    let r = std::panic::catch_unwind(std::panic::AssertUnwindSafe(|| file.execute(&src.tree, &src.text, &config, &NoCancellation)));
+    match r {
+        Err(p) => format!("PANIC {}", panic_msg(p)),
+        Ok(Ok(g)) => {
+            let pj = crate::exec::project_graph(&g, src);
+            format!("OK {}\n{}", sorted_json(&pj), g.pretty_print())
+        }
+        Ok(Err(e)) => format!("ERR {}", e),
+    }
+}
+
+fn sorted_json(v: &J) -> String {
+    // serde_json::Map is a BTreeMap here (no preserve_order feature): keys are already sorted
+    v.to_string()
+}
+
+/// property C12: one loaded file, many executions (repeated, interleaved over trees, concurrent threads)
+pub fn session(case: &J, srcs: &[Src]) -> J {
+    let text = case["text"].as_str().unwrap_or("");
+    let lazy = case["mode"].as_str() == Some("lazy");
+    let tree_ids: Vec<usize> = case["srcs"].as_array().map(|a| a.iter().filter_map(|x| x.as_u64()).map(|x| x as usize - 1).collect()).unwrap_or_default();
+    // loading: the same text gives the same diagnostic every time
+    let mut diags = Vec::new();
+    for _ in 0..4 {
+        let l = std::panic::catch_unwind(|| crate::exec::load(text));
+        diags.push(match l {
+            Err(p) => format!("PANIC {}", panic_msg(p)),
+            Ok(Err(e)) => format!("ERR {}\n{}", e, e.display_pretty(std::path::Path::new("p.tsg"), text)),
+            Ok(Ok(_)) => "OK".to_string(),
+        });
+    }
+    let mut mismatches: Vec<J> = Vec::new();
+    if diags.iter().any(|d| d != &diags[0]) {
+        mismatches.push(json!({"what": "load diagnostics differ between loads of the same text", "a": diags[0], "b": diags.iter().find(|d| *d != &diags[0])}));
+    }
+    if diags[0] != "OK" {
+        return json!({"load": diags[0], "mismatches": mismatches});
+    }
+    let globals = match crate::exec::globals_from_json(&case["globals"], &Graph::new()) {
+        Ok(g) => g,
+        Err(e) => return json!({"skip": e}),
+    };
+    let snapshot = |g: &tree_sitter_graph::Variables| {
+        let mut v: Vec<String> = g.iter().map(|(k, v)| format!("{}={:?}", k, v)).collect();
+        v.sort();
+        v.join(";")
+    };
+    let before = snapshot(&globals);
+    // isolated runs: a fresh load per run
+    let mut isolated: Vec<String> = Vec::new();
+    for t in &tree_ids {
+        let f = crate::exec::load(text).expect("load");
+        isolated.push(run_once(&f, &srcs[*t], lazy, &globals));
+    }
+    let file = crate::exec::load(text).expect("load");
+    // repeated and interleaved on one loaded file
+    for round in 0..3 {
+        for (k, t) in tree_ids.iter().enumerate() {
+            let r = run_once(&file, &srcs[*t], lazy, &globals);
+            if r != isolated[k] {
+                mismatches.push(json!({"what": format!("round {} on tree {} differs from the isolated run", round, t + 1), "a": isolated[k], "b": r}));
+            }
+        }
+    }
+    // concurrent threads sharing the file
+    let file_ref = &file;
+    let globals_json = case["globals"].clone();
+    let results: Vec<Vec<String>> = std::thread::scope(|scope| {
+        let handles: Vec<_> = (0..4)
+            .map(|i| {
+                let tree_ids = tree_ids.clone();
+                let globals_json = globals_json.clone();
+                scope.spawn(move || {
+                    // the variable set is not Sync: every thread builds its own from the same description
+                    let globals = crate::exec::globals_from_json(&globals_json, &Graph::new()).expect("globals");
+                    let globals_ref = &globals;
+                    let mut out = Vec::new();
+                    let n = tree_ids.len();
+                    for j in 0..n {
+                        let t = tree_ids[(i + j) % n];
+                        out.push(run_once_threaded(file_ref, &srcs[t], lazy, globals_ref));
+                    }
+                    out
+                })
+            })
+            .collect();
+        handles.into_iter().map(|h| h.join().unwrap_or_else(|_| vec!["THREAD PANIC".to_string()])).collect()
+    });
+    for (i, rs) in results.iter().enumerate() {
+        let n = tree_ids.len();
+        for (j, r) in rs.iter().enumerate() {
+            let k = (i + j) % n;
+            if r != &isolated[k] {
+                mismatches.push(json!({"what": format!("thread {} on tree {} differs from the isolated run", i, tree_ids[k] + 1), "a": isolated[k], "b": r}));
+            }
+        }
+    }
+    if snapshot(&globals) != before {
+        mismatches.push(json!({"what": "caller-supplied globals changed", "a": before, "b": snapshot(&globals)}));
+    }
+    json!({"load": "OK", "isolated": isolated, "mismatches": mismatches})
+}
+
+fn run_once_threaded(file: &tree_sitter_graph::ast::File, src: &Src, lazy: bool, globals: &tree_sitter_graph::Variables) -> String {
+    run_once(file, src, lazy, globals)
+}
